@@ -23,6 +23,12 @@ func newPacketAccumulator(pid uint16, programMap *programMap) *packetAccumulator
 func (b *packetAccumulator) add(p *Packet) (ps []*Packet) {
 	mps := b.q
 
+	// Throw away packet if it's the same as the previous one: a duplicate packet is not a discontinuity,
+	// unless the packet itself announces one
+	if isSameAsPrevious(mps, p) && !(p.Header.HasAdaptationField && p.AdaptationField.DiscontinuityIndicator) {
+		return
+	}
+
 	// Empty buffer if we detect a discontinuity
 	if hasDiscontinuity(mps, p) {
 		// Reset current slice or make new
@@ -31,11 +37,6 @@ func (b *packetAccumulator) add(p *Packet) (ps []*Packet) {
 		} else {
 			mps = make([]*Packet, 0, 10)
 		}
-	}
-
-	// Throw away packet if it's the same as the previous one
-	if isSameAsPrevious(mps, p) {
-		return
 	}
 
 	// Flush buffer if new payload starts here
